@@ -215,6 +215,16 @@ def check(mod, pid, tier, seed, t0):
                 elif not set(ax) <= common.ALLOWED_AXIOMS:
                     undischarged.append((name, "depends on axioms %s" % sorted(set(ax) - common.ALLOWED_AXIOMS)))
             axioms = ax2
+    # thorough tier: the compiled files of the property's modules are re-checked by leanchecker (an independent replay of
+    # every declaration through the kernel)
+    leancheck = None
+    if tier == "thorough" and build.ok:
+        t1 = time.time()
+        rc, out = common.run(["lake", "env", "leanchecker"] + modules, cwd=common.LEAN, timeout=3000)
+        bad = rc != 0 or "uncaught exception" in out or "error" in out.lower()
+        leancheck = "%s (%d modules, %.0f s)" % ("rejected: " + out[-300:] if bad else "ok", len(modules), time.time() - t1)
+        if bad:
+            undischarged.append(("leanchecker", out[-300:]))
     for flag in build.source_flags:
         undischarged.append(("source-audit", flag))
     driver_ok = os.path.exists(common.DRIVER)
@@ -336,6 +346,7 @@ def check(mod, pid, tier, seed, t0):
             "corpus_cases": len(corpus),
             "known_findings_reconfirmed": [kf_open[k].get("what") for k in confirmed],
             "lean_build_s": round(build.wall, 1),
+            "leanchecker": leancheck,
         },
         "assumptions": list(getattr(mod, "ASSUMPTIONS", [])),
         "wall_s": round(wall, 2),
